@@ -106,6 +106,10 @@ OpenPool(lazy) ==
    \* (RFC 5492 section 4), adjacent and separated by another capability, in every packaging
    \cup UNION {{Op(<<0, 65002>>, 90, <<10, 0, 0, 2>>, cs, p) : cs \in {<<K[i], y>>, <<y, K[i]>>, <<K[i], <<2, <<>>>>, y>>, <<y, As4Cap(<<0, 65002>>), K[i]>>}, p \in Packs}
                : i \in {j \in 1..Len(K) : K[j][1] \in {1, 69, 5, 71}}, y \in {m \in MoreCaps(<<0, 65002>>) : m[1] \in {1, 69, 5, 71}}} 
+   \* optional parameters that fill the one-octet length field to its end (253, 254, 255 octets): one parameter with one
+   \* unknown capability, and multiprotocol capabilities one parameter each
+   \cup {Op(<<0, 65002>>, 90, <<10, 0, 0, 2>>, <<<<99, [i \in 1..n |-> i % 256]>>>>, "one") : n \in {249, 250, 251}}
+   \cup {Op(<<0, 65002>>, 90, <<10, 0, 0, 2>>, [i \in 1..29 |-> MP(1, 1)] \o <<As4Cap(<<0, 65002>>), <<2, <<>>>>, <<71, <<0, 1, 1, 128, 0, 0, 120>>>>>>, "each")}
    \* all kinds together, forwards and backwards
    \cup {Op(<<0, 65002>>, 90, <<10, 0, 0, 2>>, K, p) : p \in Packs}
    \cup {Op(<<1, 4464>>, 90, <<10, 0, 0, 2>>, [i \in 1..Len(K) |-> CapKinds(<<1, 4464>>)[Len(K) + 1 - i]], p) : p \in Packs}
